@@ -126,7 +126,7 @@ const OP_HOLDER_NEW: usize = 1;
 const OP_PRESENT: usize = 2;
 const OP_VERIFY: usize = 3;
 
-fn record<T>(op: usize, name: &str, args: Value, out: &Outcome<T>) {
+fn record<T>(op: usize, name: &str, args: impl FnOnce() -> Value, out: &Outcome<T>) {
     let k = match out {
         Outcome::Ok(_) => 0,
         Outcome::Err(_) => 1,
@@ -137,7 +137,7 @@ fn record<T>(op: usize, name: &str, args: Value, out: &Outcome<T>) {
         let mut h = h.borrow_mut();
         if h.len() < 64 {
             let seq = h.len();
-            h.push(json!({"seq": seq, "op": name, "args": args, "result": out.describe()}));
+            h.push(json!({"seq": seq, "op": name, "args": args(), "result": out.describe()}));
         }
     });
 }
@@ -202,10 +202,7 @@ pub fn issue(
 ) -> Outcome<String> {
     let jwk = holder.map(|(a, i)| keys::holder_jwk(a, i));
     let out = guarded(|| issuer.issue_sd_jwt(claims.clone(), strategy.to_lib(), jwk, decoys, fmt.lib()));
-    record(
-        OP_ISSUE,
-        "issue_sd_jwt",
-        json!({"claims": trunc(&claims.to_string()), "strategy": strategy.describe(), "holder": holder.map(|(a,i)| format!("{}#{i}", a.name())), "decoys": decoys, "format": fmt.name()}),
+    record(OP_ISSUE, "issue_sd_jwt", || json!({"claims": trunc(&claims.to_string()), "strategy": strategy.describe(), "holder": holder.map(|(a,i)| format!("{}#{i}", a.name())), "decoys": decoys, "format": fmt.name()}),
         &out,
     );
     out
@@ -223,10 +220,7 @@ pub fn issue_raw(
     let jwk = holder.map(|(a, i)| keys::holder_jwk(a, i));
     let desc = format!("{strategy:?}");
     let out = guarded(|| issuer.issue_sd_jwt(claims.clone(), strategy, jwk, decoys, fmt.lib()));
-    record(
-        OP_ISSUE,
-        "issue_sd_jwt",
-        json!({"claims": trunc(&claims.to_string()), "strategy": trunc(&desc), "decoys": decoys, "format": fmt.name()}),
+    record(OP_ISSUE, "issue_sd_jwt", || json!({"claims": trunc(&claims.to_string()), "strategy": trunc(&desc), "decoys": decoys, "format": fmt.name()}),
         &out,
     );
     out
@@ -234,10 +228,7 @@ pub fn issue_raw(
 
 pub fn holder_new(sd_jwt: &str, fmt: Fmt) -> Outcome<SDJWTHolder> {
     let out = guarded(|| SDJWTHolder::new(sd_jwt.to_string(), fmt.lib()));
-    record(
-        OP_HOLDER_NEW,
-        "SDJWTHolder::new",
-        json!({"input": trunc(sd_jwt), "format": fmt.name()}),
+    record(OP_HOLDER_NEW, "SDJWTHolder::new", || json!({"input": trunc(sd_jwt), "format": fmt.name()}),
         &out,
     );
     out
@@ -269,10 +260,7 @@ pub fn present(holder: &mut SDJWTHolder, sel: &Value, kb: Option<&KbArgs>) -> Ou
             },
         ),
     });
-    record(
-        OP_PRESENT,
-        "create_presentation",
-        json!({"selection": trunc(&sel.to_string()), "kb": kb.map(|k| json!({"nonce": trunc(&k.nonce), "aud": trunc(&k.aud), "alg": k.alg.name(), "key": k.key_idx}))}),
+    record(OP_PRESENT, "create_presentation", || json!({"selection": trunc(&sel.to_string()), "kb": kb.map(|k| json!({"nonce": trunc(&k.nonce), "aud": trunc(&k.aud), "alg": k.alg.name(), "key": k.key_idx}))}),
         &out,
     );
     out
@@ -298,7 +286,7 @@ pub fn present_raw(
             sign_alg,
         )
     });
-    record(OP_PRESENT, "create_presentation", desc, &out);
+    record(OP_PRESENT, "create_presentation", || desc, &out);
     out
 }
 
@@ -357,7 +345,7 @@ pub fn verify_raw(
     });
     let desc = json!({"presentation": trunc(pres), "resolver": format!("{resolver:?}"), "aud": aud.as_deref().map(trunc), "nonce": nonce.as_deref().map(trunc), "format": fmt.name()});
     let out = guarded(|| SDJWTVerifier::new(pres.to_string(), cb, aud, nonce, fmt.lib()).map(|v| v.verified_claims));
-    record(OP_VERIFY, "SDJWTVerifier::new", desc, &out);
+    record(OP_VERIFY, "SDJWTVerifier::new", || desc, &out);
     let resolver_calls = calls.borrow().clone();
     Verified { out, resolver_calls }
 }
